@@ -843,4 +843,173 @@ theorem segExact_sound (H : Rat → Rat) (hH : ∀ p : Rat, 0 < p → p < 1 → 
           simpa using this
         · simp [h3] at h
 
+/-! ### segregation index: bounds from concavity (Jensen) -/
+
+theorem fragEntropy_guard (H : Rat → Rat) (f : Frag) :
+    fragEntropy H f = if f.tot = 0 then 0 else guardH H ((f.post : Rat) / (f.tot : Rat)) := rfl
+
+def wsum (H : Rat → Rat) (fs : List Frag) : Rat := (fs.map fun f => fragEntropy H f * (f.tot : Rat)).sum
+
+theorem totq_cons (f : Frag) (fs : List Frag) :
+    ((totPre (f :: fs) + totPost (f :: fs) : Nat) : Rat) = (f.tot : Rat) + ((totPre fs + totPost fs : Nat) : Rat) := by
+  simp only [totPre, totPost, List.map_cons, List.sum_cons, Frag.tot]
+  push_cast; ring
+
+theorem postq_cons (f : Frag) (fs : List Frag) :
+    ((totPost (f :: fs) : Nat) : Rat) = (f.post : Rat) + ((totPost fs : Nat) : Rat) := by
+  simp only [totPost, List.map_cons, List.sum_cons]
+  push_cast; ring
+
+theorem post_le_tot (fs : List Frag) : ((totPost fs : Nat) : Rat) ≤ ((totPre fs + totPost fs : Nat) : Rat) := by
+  exact_mod_cast Nat.le_add_left _ _
+
+theorem jensen (H : Rat → Rat) (hG : ConcaveNonneg (guardH H)) : ∀ fs : List Frag,
+    (totPre fs + totPost fs = 0 → wsum H fs = 0) ∧
+    (totPre fs + totPost fs ≠ 0 → wsum H fs ≤ ((totPre fs + totPost fs : Nat) : Rat) *
+        guardH H (((totPost fs : Nat) : Rat) / ((totPre fs + totPost fs : Nat) : Rat))) := by
+  intro fs
+  induction fs with
+  | nil => simp [wsum, totPre, totPost]
+  | cons f fs ih =>
+    obtain ⟨ih0, ih1⟩ := ih
+    have hw : wsum H (f :: fs) = fragEntropy H f * (f.tot : Rat) + wsum H fs := by simp [wsum]
+    have hT := totq_cons f fs
+    have hQ := postq_cons f fs
+    have hsplit : totPre (f :: fs) + totPost (f :: fs) = f.tot + (totPre fs + totPost fs) := by
+      simp only [totPre, totPost, List.map_cons, List.sum_cons, Frag.tot]; omega
+    constructor
+    · intro h0
+      have ht : f.tot = 0 := by omega
+      have hr : totPre fs + totPost fs = 0 := by omega
+      rw [hw, ih0 hr, fragEntropy_guard]; simp [ht]
+    · intro hne
+      rw [hw, hT, hQ]
+      by_cases ht : f.tot = 0
+      · have hr : totPre fs + totPost fs ≠ 0 := by omega
+        have hq : f.post = 0 := by unfold Frag.tot at ht; omega
+        rw [fragEntropy_guard]; simp only [ht, hq, if_true]
+        simpa using ih1 hr
+      · by_cases hr : totPre fs + totPost fs = 0
+        · have hq' : totPost fs = 0 := by omega
+          have hT0 : ((totPre fs + totPost fs : Nat) : Rat) = 0 := by rw [hr]; simp
+          have hQ0 : ((totPost fs : Nat) : Rat) = 0 := by rw [hq']; simp
+          rw [ih0 hr, fragEntropy_guard, hT0, hQ0]; simp only [ht, if_false]
+          simp [mul_comm]
+        · have ih1 := ih1 hr
+          rw [fragEntropy_guard]; simp only [ht, if_false]
+          have tpos : (0 : Rat) < (f.tot : Rat) := by exact_mod_cast Nat.pos_of_ne_zero ht
+          have Tpos : (0 : Rat) < ((totPre fs + totPost fs : Nat) : Rat) := by exact_mod_cast Nat.pos_of_ne_zero hr
+          have qle : (f.post : Rat) ≤ (f.tot : Rat) := by unfold Frag.tot; push_cast; linarith [Nat.cast_nonneg (α := Rat) f.pre]
+          have Qle := post_le_tot fs
+          have q0 : (0 : Rat) ≤ (f.post : Rat) := Nat.cast_nonneg _
+          have Q0 : (0 : Rat) ≤ ((totPost fs : Nat) : Rat) := Nat.cast_nonneg _
+          generalize (f.tot : Rat) = a at *
+          generalize ((totPre fs + totPost fs : Nat) : Rat) = T at *
+          generalize (f.post : Rat) = q at *
+          generalize ((totPost fs : Nat) : Rat) = Q at *
+          have hsum : (0 : Rat) < a + T := by linarith
+          have hx0 : 0 ≤ q / a := div_nonneg q0 (le_of_lt tpos)
+          have hx1 : q / a ≤ 1 := (div_le_iff₀ tpos).mpr (by linarith)
+          have hy0 : 0 ≤ Q / T := div_nonneg Q0 (le_of_lt Tpos)
+          have hy1 : Q / T ≤ 1 := (div_le_iff₀ Tpos).mpr (by linarith)
+          have hl0 : 0 ≤ a / (a + T) := div_nonneg (le_of_lt tpos) (le_of_lt hsum)
+          have hl1 : a / (a + T) ≤ 1 := (div_le_iff₀ hsum).mpr (by linarith)
+          have c := hG.conc (q / a) (Q / T) (a / (a + T)) hx0 hx1 hy0 hy1 hl0 hl1
+          have e : a / (a + T) * (q / a) + (1 - a / (a + T)) * (Q / T) = (q + Q) / (a + T) := by
+            field_simp; ring
+          rw [e] at c
+          have c2 := mul_le_mul_of_nonneg_left c (le_of_lt hsum)
+          have e2 : (a + T) * (a / (a + T) * guardH H (q / a) + (1 - a / (a + T)) * guardH H (Q / T)) =
+              a * guardH H (q / a) + T * guardH H (Q / T) := by
+            field_simp; ring
+          rw [e2] at c2
+          linarith
+theorem fragEntropy_nonneg (H : Rat → Rat) (hG : ConcaveNonneg (guardH H)) (f : Frag) : 0 ≤ fragEntropy H f := by
+  rw [fragEntropy_guard]
+  split
+  · exact le_refl _
+  · exact hG.nonneg _
+
+theorem wsum_nonneg (H : Rat → Rat) (hG : ConcaveNonneg (guardH H)) (fs : List Frag) : 0 ≤ wsum H fs := by
+  unfold wsum
+  induction fs with
+  | nil => simp
+  | cons f fs ih =>
+    simp only [List.map_cons, List.sum_cons]
+    have := mul_nonneg (fragEntropy_nonneg H hG f) (Nat.cast_nonneg (α := Rat) f.tot)
+    linarith
+
+/-- **The segregation index lies in [0, 1]** for every entropy function whose guarded form is
+non-negative and concave on [0, 1] (Jensen's inequality). -/
+theorem segIdx_bounds (H : Rat → Rat) (hG : ConcaveNonneg (guardH H)) (fs : List Frag) (v : Rat)
+    (h : segIdx H fs = some v) : 0 ≤ v ∧ v ≤ 1 := by
+  unfold segIdx at h
+  simp only at h
+  by_cases h0 : totPre fs + totPost fs = 0
+  · simp [h0] at h
+  · simp only [h0, if_false] at h
+    by_cases hp : 0 < ((totPost fs : Nat) : Rat) / ((totPre fs + totPost fs : Nat) : Rat) ∧
+        ((totPost fs : Nat) : Rat) / ((totPre fs + totPost fs : Nat) : Rat) < 1
+    · rw [if_pos hp] at h
+      simp only [Option.some.injEq] at h
+      subst h
+      have hj := (jensen H hG fs).2 h0
+      have hs := wsum_nonneg H hG fs
+      have hgd : guardH H (((totPost fs : Nat) : Rat) / ((totPre fs + totPost fs : Nat) : Rat)) =
+          H (((totPost fs : Nat) : Rat) / ((totPre fs + totPost fs : Nat) : Rat)) := by
+        unfold guardH; rw [if_pos hp]
+      have hg0 := hG.nonneg (((totPost fs : Nat) : Rat) / ((totPre fs + totPost fs : Nat) : Rat))
+      rw [hgd] at hj hg0
+      have Tpos : (0 : Rat) < ((totPre fs + totPost fs : Nat) : Rat) := by exact_mod_cast Nat.pos_of_ne_zero h0
+      have hm : meanEntropy H fs = wsum H fs / ((totPre fs + totPost fs : Nat) : Rat) := by
+        unfold meanEntropy wsum; ring
+      rw [hm]
+      generalize H (((totPost fs : Nat) : Rat) / ((totPre fs + totPost fs : Nat) : Rat)) = G at *
+      generalize ((totPre fs + totPost fs : Nat) : Rat) = T at *
+      generalize wsum H fs = W at *
+      have hS0 : 0 ≤ W / T := div_nonneg hs (le_of_lt Tpos)
+      have hS1 : W / T ≤ G := (div_le_iff₀ Tpos).mpr (by linarith)
+      rcases eq_or_lt_of_le hg0 with hz | hpos
+      · rw [← hz]; simp
+      · have a : 0 ≤ W / T / G := div_nonneg hS0 (le_of_lt hpos)
+        have b : W / T / G ≤ 1 := (div_le_iff₀ hpos).mpr (by linarith)
+        constructor <;> linarith
+    · rw [if_neg hp] at h
+      simp only [Option.some.injEq] at h
+      subst h; simp
+
+
+theorem guardH_quad {w : Rat} (h0 : 0 ≤ w) (h1 : w ≤ 1) : guardH (fun p => p * (1 - p)) w = w * (1 - w) := by
+  unfold guardH
+  by_cases h : 0 < w ∧ w < 1
+  · rw [if_pos h]
+  · rw [if_neg h]
+    rcases eq_or_lt_of_le h0 with e | e
+    · rw [← e]; simp
+    · have : w = 1 := by
+        by_contra hne
+        exact h ⟨e, lt_of_le_of_ne h1 hne⟩
+      rw [this]; simp
+
+/-- `p(1−p)` is a non-negative concave "entropy": the hypothesis of the bound is satisfiable. -/
+theorem concave_example : ConcaveNonneg (guardH fun p => p * (1 - p)) := by
+  constructor
+  · intro p
+    unfold guardH
+    by_cases h : 0 < p ∧ p < 1
+    · rw [if_pos h]; exact mul_nonneg (le_of_lt h.1) (by linarith [h.2])
+    · rw [if_neg h]
+  · intro x y lam hx0 hx1 hy0 hy1 hl0 hl1
+    have hz0 : 0 ≤ lam * x + (1 - lam) * y := by
+      have := mul_nonneg hl0 hx0
+      have := mul_nonneg (by linarith : (0 : Rat) ≤ 1 - lam) hy0
+      linarith
+    have hz1 : lam * x + (1 - lam) * y ≤ 1 := by
+      have := mul_le_mul_of_nonneg_left hx1 hl0
+      have := mul_le_mul_of_nonneg_left hy1 (by linarith : (0 : Rat) ≤ 1 - lam)
+      linarith
+    rw [guardH_quad hx0 hx1, guardH_quad hy0 hy1, guardH_quad hz0 hz1]
+    have key := mul_nonneg (mul_nonneg hl0 (by linarith : (0 : Rat) ≤ 1 - lam)) (sq_nonneg (x - y))
+    nlinarith [key]
+
 end Navis.Flow
